@@ -78,8 +78,13 @@ def find_fn(tokens, name, after=0):
             pe = find_matching(tokens, j, '(', ')')
             params = tokens[j + 1:pe]
             k = pe + 1
-            while tokens[k][1] != '{':
-                if tokens[k][1] == ';':
+            depth = 0
+            while not (tokens[k][1] == '{' and depth == 0):
+                if tokens[k][1] in '([':
+                    depth += 1
+                elif tokens[k][1] in ')]':
+                    depth -= 1
+                elif tokens[k][1] == ';' and depth == 0:
                     raise Unparsed("fn %s has no body" % name)
                 k += 1
             be = find_matching(tokens, k, '{', '}')
